@@ -693,6 +693,12 @@ type concU struct {
 // values and shared Go types (so first-use compilation of folders/unfolders
 // recurs every round), and compares every result with the sequential one.
 // Registry identities of all instances are recorded (ownership).
+// named container types (C19: whatever the library remembers about them must not be shared between instances)
+type concLabels map[string]string
+type concIDs []int64
+type concFlags []bool
+type concWeights map[string]float64
+
 func runConc(c *Case, tr *Trace) {
 	n := int(c.Sub["n"].(float64))
 	rounds := int(c.Sub["rounds"].(float64))
@@ -703,6 +709,11 @@ func runConc(c *Case, tr *Trace) {
 		&concT{A: "ptr"},
 		concU{ID: 1, F: concFolder{10}, G: concFolder{20}, Z: ZeroT{1}, P: &ZeroP{2}, M: map[string]interface{}{"mk": "mv"}},
 		[]concU{{ID: 2, F: concFolder{30}}, {ID: 3, G: concFolder{40}}},
+		// named container types as the Fold argument and below interface{} (folded through their unnamed counterpart)
+		concLabels{"a": "b"},
+		concIDs{1, 2, 3},
+		map[string]interface{}{"l": concLabels{"x": "y"}, "i": concIDs{7}, "f": concFlags{true, false}, "w": concWeights{"w": 1.5}},
+		[]interface{}{concIDs{4}, concLabels{"q": "r"}, concWeights{"v": 2.5}, concFlags{true}},
 	}
 	fmts := []string{"json", "ubjson", "cborl"}
 	var aliveMu sync.Mutex
@@ -722,7 +733,7 @@ func runConc(c *Case, tr *Trace) {
 			out = reflect.New(reflect.TypeOf(v).Elem())
 		}
 		switch v.(type) {
-		case concU, []concU:
+		case concU, []concU, concLabels, concIDs:
 			out = reflect.New(ifaceType) // custom folders have no unfolding counterpart: read back as generic data
 		}
 		un, err := gotype.NewUnfolder(out.Interface())
